@@ -36,6 +36,7 @@ Local Open Scope N_scope.
 #[local] Arguments sp_nft {HT} s.
 #[local] Arguments sp_out {HT} s.
 #[local] Arguments mkSp {HT}.
+#[local] Arguments sp_log {HT} s.
 
 Lemma ftbl_set_len t : forall n v, len (ftbl_set t n v) = len t.
 Proof.
@@ -244,6 +245,12 @@ Qed.
 (* ------------------------------------------------------------------ *)
 (* the back end                                                        *)
 (* ------------------------------------------------------------------ *)
+(* within one inode, a tail end never carries the block index of a non-empty data block
+   (proved for the front end below: fe_files_fresh) *)
+Definition frag_idx_fresh (D : list blk) : Prop :=
+  forall d f, In d D -> In f D -> bhas ISFRAG f = true -> bhas ISFRAG d = false ->
+              b_ino d = b_ino f -> b_data d <> [] -> b_idx d <> b_idx f.
+
 Section Main.
 Variable hash : list N -> N.
 Variable compress : list N -> option (list N).
@@ -267,6 +274,11 @@ Hypothesis alpha_deq_nil : forall p, alpha p = [] -> p_dequeue p = None.
 Hypothesis alpha_deq_cons : forall p b r, alpha p = b :: r ->
   exists p', p_dequeue p = Some (pblock b, p') /\ alpha p' = r.
 Hypothesis Hmb : 3 <= mb.
+
+(* all blocks the front end will ever submit in this run *)
+Variable Dall : list blk.
+Hypothesis Hfresh : frag_idx_fresh Dall.
+Hypothesis HDfl : Forall (fun d => fe_flags_ok (b_fl d)) Dall.
 
 Notation state := (st HT BW P).
 Notation spst := (sp HT).
@@ -295,6 +307,27 @@ Definition Apool (s : state) : list blk := alpha (s_pool s).
 Definition frag_ok (fb : blk) : Prop :=
   bhas FRAGBLK fb = true /\ bhas INTERNAL fb = false /\ bhas ISFRAG fb = false.
 
+(* where an element of the output comes from *)
+Definition src_ok (src : list blk) (e : blk) : Prop :=
+  bhas FRAGBLK e = true \/
+  exists d, In d src /\ bhas ISFRAG d = false /\ e = with_seq (pblock d) (b_seq e).
+
+Definition fb_idx_ok (n : N) (e : blk) : Prop :=
+  bhas FRAGBLK e = true -> b_idx e < n /\ bhas SPARSE e = false.
+
+(* inodes (fragment reference, block-size list) and fragment table are the canonical functions of the
+   specification's logs and the write log *)
+Record ObsInv (s : state) (q : spst) : Prop := mkObs {
+  O_fv : forall k, (i_fidx (s_ino s k), i_foff (s_ino s k)) = fref_of (ol_glog (sp_log q)) k;
+  O_bv : forall k, i_blocks (s_ino s k) = blocks_canon (ol_sflog (sp_log q)) (map fst (s_writes s)) k;
+  O_ft : s_ftbl s = ftbl_canon (sp_nft q) (s_writes s);
+  O_src : incl (ol_src (sp_log q)) Dall;
+  O_pool : incl (filter notFB (Apool s)) Dall;
+  O_outsrc : Forall (src_ok (ol_src (sp_log q))) (sp_out q);
+  O_fbidx : Forall (fb_idx_ok (sp_nft q)) (sp_out q);
+  O_fragidx : forall fb, sp_frag q = Some fb -> b_idx fb < sp_nft q /\ bhas SPARSE fb = false
+}.
+
 (* [h] = blocks in the hands of the front end (blk_current, a sentinel being made) *)
 Record Inv (h : N) (s : state) (q : spst) : Prop := mkInv {
   I_frag : s_frag s = sp_frag q;
@@ -303,8 +336,90 @@ Record Inv (h : N) (s : state) (q : spst) : Prop := mkInv {
   I_fragok : forall fb, sp_frag q = Some fb -> frag_ok fb;
   I_q : InvQ' (Apool s) (s_ioq s) (s_ioseq s) (s_iodeq s) (s_bw s, s_writes s) (sp_out q);
   I_bl : s_backlog s = len (Apool s) + len (s_ioq s) + b2n (isSome (s_frag s)) + h;
-  I_mb : s_backlog s <= mb
+  I_mb : s_backlog s <= mb;
+  I_obs : ObsInv s q
 }.
+
+Ltac prj := cbn [s_pool s_ioq s_ioseq s_iodeq s_frag s_cur s_backlog s_ht s_ftbl s_ino s_bw s_writes
+                 st_pool st_ioq st_ioseq st_iodeq st_frag st_cur st_backlog st_ht st_ftbl st_ino st_bw
+                 release enqueue sp_frag sp_ht sp_nft sp_out sp_log ol_src ol_glog ol_sflog log_g log_sf log_src] in *.
+
+(* lia after abstracting every list length (zify chokes on lengths of section-variable applications) *)
+Ltac nlia :=
+  repeat match goal with
+  | |- context [@len ?T ?l] => let n := fresh "n" in set (n := @len T l) in *; clearbody n
+  | H : context [@len ?T ?l] |- _ => let n := fresh "n" in set (n := @len T l) in *; clearbody n
+  end; lia.
+
+
+(* ---------------- the observation invariant: helpers ---------------- *)
+Lemma ObsInv_ext (s s' : state) q :
+  s_ino s' = s_ino s -> s_writes s' = s_writes s -> s_ftbl s' = s_ftbl s ->
+  incl (filter notFB (Apool s')) (filter notFB (Apool s)) ->
+  ObsInv s q -> ObsInv s' q.
+Proof.
+  intros E1 E2 E3 E4 []. constructor; rewrite ?E1, ?E2, ?E3; try assumption.
+  eapply incl_tran; eassumption.
+Qed.
+
+Lemma Forall_firstn {A} (Q : A -> Prop) l : forall n, Forall Q l -> Forall Q (firstn n l).
+Proof.
+  induction l as [|x l IH]; intros [|n] H; cbn [firstn]; try constructor.
+  - inversion H; assumption.
+  - apply IH. inversion H; assumption.
+Qed.
+
+Lemma Q_writes Ap ioq n d bw wr out :
+  InvQ' Ap ioq n d (bw, wr) out -> map fst wr = firstn (N.to_nat d) out.
+Proof.
+  intros []. change wr with (snd (bw, wr)). rewrite Q_wr. rewrite bw_run_blocks. reflexivity.
+Qed.
+
+Lemma src_ok_grow src x e : src_ok src e -> src_ok (src ++ [x]) e.
+Proof.
+  intros [H|(d & A & B & C)]; [left; exact H|right]. exists d. split; [apply in_or_app; left; exact A|]. auto.
+Qed.
+
+Lemma fb_idx_ok_grow n e : fb_idx_ok n e -> fb_idx_ok (n + 1) e.
+Proof. intros H HF. destruct (H HF). split; [lia|assumption]. Qed.
+
+(* what is already written does not touch cell idx(x) of inode ino(x) when x is a tail end *)
+Lemma written_fresh (s : state) q x :
+  ObsInv s q -> (exists n, map fst (s_writes s) = firstn n (sp_out q)) ->
+  In x Dall -> bhas ISFRAG x = true ->
+  Forall (fun b => b_ino b = b_ino x -> acts b -> N.to_nat (b_idx b) <> N.to_nat (b_idx x)) (map fst (s_writes s)).
+Proof.
+  intros [] (n & Hw) Hx Hfx. rewrite Hw. apply Forall_firstn.
+  apply Forall_forall. intros e He Hino Hact.
+  rewrite Forall_forall in O_outsrc0, O_fbidx0.
+  destruct (O_outsrc0 e He) as [HF|(d & Hd & Hdf & Heq)].
+  - destruct (O_fbidx0 e He HF) as (_ & Hsp). destruct Hact as [Ha|[_ Ha]]; congruence.
+  - assert (HdD : In d Dall) by (apply O_src0; exact Hd).
+    rewrite Forall_forall in HDfl. pose proof (HDfl d HdD) as Hfl. apply fe_flags_ok_elim in Hfl.
+    destruct Hfl as (_ & _ & Hsp & _).
+    assert (Hact' : acts (pblock d)).
+    { rewrite Heq in Hact. exact Hact. }
+    pose proof (pb_acts_nonempty hash compress d Hsp Hact') as Hne.
+    assert (E1 : b_ino e = b_ino d) by (rewrite Heq; cbn [b_ino with_seq]; apply pb_ino).
+    assert (E2 : b_idx e = b_idx d) by (rewrite Heq; cbn [b_idx with_seq]; apply pb_idx).
+    rewrite E2. intro Hc. apply N2Nat.inj in Hc.
+    apply (Hfresh d x HdD Hx Hfx Hdf); [congruence|exact Hne|exact Hc].
+Qed.
+
+(* fragment-block writes so far carry indices below the table size *)
+Lemma written_ft_ok (s : state) q :
+  ObsInv s q -> (exists n, map fst (s_writes s) = firstn n (sp_out q)) ->
+  Forall (ft_ok (N.to_nat (sp_nft q))) (s_writes s).
+Proof.
+  intros [] (n & Hw).
+  assert (H : Forall (fun b => bhas FRAGBLK b = true -> (N.to_nat (b_idx b) < N.to_nat (sp_nft q))%nat) (map fst (s_writes s))).
+  { rewrite Hw. apply Forall_firstn. eapply Forall_impl; [|exact O_fbidx0].
+    intros e He HF. destruct (He HF). lia. }
+  apply Forall_map in H. exact H.
+Qed.
+
+Ltac obs_same H :=
+  eapply ObsInv_ext; [| | | |exact H]; try reflexivity; unfold Apool; prj; try apply incl_refl.
 
 (* ---------------- process_completed_block / the flush loop ---------------- *)
 Lemma pcb_fields (s : state) b bw' loc : bw_write (s_bw s) b = (bw', loc) ->
@@ -319,6 +434,59 @@ Proof.
     destruct (bhas LAST b);
     cbn [release st_ino st_ftbl st_backlog s_bw s_writes s_pool s_ioq s_ioseq s_iodeq s_frag s_cur s_backlog s_ht s_ftbl s_ino];
     rewrite ?ftbl_set_len; repeat split; reflexivity.
+Qed.
+
+Lemma it_upd_kv (t : itab) k f k' : keeps_views f ->
+  i_fidx (it_upd t k f k') = i_fidx (t k') /\ i_foff (it_upd t k f k') = i_foff (t k') /\
+  i_blocks (it_upd t k f k') = i_blocks (t k').
+Proof. intro H. unfold it_upd. destruct (k' =? k); [apply H|auto]. Qed.
+
+(* what process_completed_block does to the fragment table and to the two inode views *)
+Lemma pcb_views (s : state) b bw' loc : bw_write (s_bw s) b = (bw', loc) ->
+  s_ftbl (pcb' s b) = ftbl_apply (s_ftbl s) (b, loc) /\
+  forall k, i_fidx (s_ino (pcb' s b) k) = i_fidx (s_ino s k) /\
+            i_foff (s_ino (pcb' s b) k) = i_foff (s_ino s k) /\
+            i_blocks (s_ino (pcb' s b) k) = flush_blk k (i_blocks (s_ino s k)) b.
+Proof.
+  intro H. unfold pcb. rewrite H. destruct s as [xp xq xs xd xf xc xb xh xt xi xw xl].
+  unfold ftbl_apply, flush_blk. cbn [fst snd]. prj.
+  assert (KL : forall (t : itab) k,
+            i_fidx (it_upd t (b_ino b) (fun i => i_set_block_start i loc) k) = i_fidx (t k) /\
+            i_foff (it_upd t (b_ino b) (fun i => i_set_block_start i loc) k) = i_foff (t k) /\
+            i_blocks (it_upd t (b_ino b) (fun i => i_set_block_start i loc) k) = i_blocks (t k)).
+  { intros t k. apply it_upd_kv. apply kv_set_block_start. }
+  destruct (bhas SPARSE b).
+  - (* sparse *)
+    assert (KS : forall k,
+       i_fidx (it_upd xi (b_ino b) (fun i => i_set_block_size (i_add_sparse (i_make_extended i) (len (b_data b))) (b_idx b) 0) k) = i_fidx (xi k) /\
+       i_foff (it_upd xi (b_ino b) (fun i => i_set_block_size (i_add_sparse (i_make_extended i) (len (b_data b))) (b_idx b) 0) k) = i_foff (xi k) /\
+       i_blocks (it_upd xi (b_ino b) (fun i => i_set_block_size (i_add_sparse (i_make_extended i) (len (b_data b))) (b_idx b) 0) k) =
+         (if k =? b_ino b then upd_nth (N.to_nat (b_idx b)) 0 (i_blocks (xi k)) else i_blocks (xi k))).
+    { intro k. unfold it_upd. destruct (k =? b_ino b); [|auto].
+      destruct (kv_make_extended (xi k)) as (A & B & C). cbn [i_set_block_size i_add_sparse i_fidx i_foff i_blocks].
+      rewrite A, B, C. auto. }
+    destruct (bhas LAST b); prj; (split; [reflexivity|]); intro k.
+    + destruct (KL (it_upd xi (b_ino b) (fun i => i_set_block_size (i_add_sparse (i_make_extended i) (len (b_data b))) (b_idx b) 0)) k) as (A & B & C).
+      destruct (KS k) as (A' & B' & C'). rewrite A, B, C, A', B', C'. auto.
+    + apply KS.
+  - destruct (negb (len (b_data b) =? 0)).
+    + destruct (bhas FRAGBLK b).
+      * destruct (bhas LAST b); prj; (split; [reflexivity|]); intro k.
+        -- destruct (KL xi k) as (A & B & C). rewrite A, B, C. destruct (k =? b_ino b); auto.
+        -- destruct (k =? b_ino b); auto.
+      * assert (KD : forall k,
+          i_fidx (it_upd xi (b_ino b) (fun i => i_set_block_size i (b_idx b) (size_word b)) k) = i_fidx (xi k) /\
+          i_foff (it_upd xi (b_ino b) (fun i => i_set_block_size i (b_idx b) (size_word b)) k) = i_foff (xi k) /\
+          i_blocks (it_upd xi (b_ino b) (fun i => i_set_block_size i (b_idx b) (size_word b)) k) =
+            (if k =? b_ino b then upd_nth (N.to_nat (b_idx b)) (size_word b) (i_blocks (xi k)) else i_blocks (xi k))).
+        { intro k. unfold it_upd. destruct (k =? b_ino b); [|auto]. cbn. auto. }
+        destruct (bhas LAST b); prj; (split; [reflexivity|]); intro k.
+        -- destruct (KL (it_upd xi (b_ino b) (fun i => i_set_block_size i (b_idx b) (size_word b))) k) as (A & B & C).
+           destruct (KD k) as (A' & B' & C'). rewrite A, B, C, A', B', C'. auto.
+        -- apply KD.
+    + destruct (bhas LAST b); prj; (split; [reflexivity|]); intro k.
+      * destruct (KL xi k) as (A & B & C). rewrite A, B, C. destruct (k =? b_ino b); auto.
+      * destruct (k =? b_ino b); auto.
 Qed.
 
 Lemma st_ioq_id (s : state) l : s_ioq s = l -> st_ioq s l = s.
@@ -358,6 +526,20 @@ Proof.
     rewrite G10 in Hw. eapply Q_flush; [exact I_q0|exact He|exact Hw].
   - unfold Apool in *. rewrite F1, F2, F5, F7, G1, G2, G5, G7, I_bl0, len_cons. lia.
   - lia.
+  - (* observations *)
+    assert (G12 : s_ino s0 = s_ino s) by (destruct s; reflexivity).
+    destruct (pcb_views s0 e bw' loc Hw) as (V1 & V2).
+    destruct I_obs0 as [Ofv Obv Oft Osrc Opool Oout Ofb Ofr].
+    constructor.
+    + intro k. destruct (V2 k) as (A & B & _). rewrite A, B, G12. apply Ofv.
+    + intro k. destruct (V2 k) as (_ & _ & C). rewrite C, F11, G11, G12, map_app. cbn [map fst].
+      rewrite blocks_canon_flush, <- Obv. reflexivity.
+    + rewrite V1, F11, G11, G9, ftbl_canon_snoc, <- Oft. reflexivity.
+    + exact Osrc.
+    + unfold Apool in *. rewrite F1, G1. exact Opool.
+    + exact Oout.
+    + exact Ofb.
+    + exact Ofr.
 Qed.
 
 Lemma flush_ok h q : forall l (s : state),
@@ -384,16 +566,6 @@ Proof.
 Qed.
 
 (* ---------------- process_completed_fragment ---------------- *)
-Ltac prj := cbn [s_pool s_ioq s_ioseq s_iodeq s_frag s_cur s_backlog s_ht s_ftbl s_ino s_bw s_writes
-                 st_pool st_ioq st_ioseq st_iodeq st_frag st_cur st_backlog st_ht st_ftbl st_ino st_bw
-                 release enqueue sp_frag sp_ht sp_nft sp_out] in *.
-
-(* lia after abstracting every list length (zify chokes on lengths of section-variable applications) *)
-Ltac nlia :=
-  repeat match goal with
-  | |- context [@len ?T ?l] => let n := fresh "n" in set (n := @len T l) in *; clearbody n
-  | H : context [@len ?T ?l] |- _ => let n := fresh "n" in set (n := @len T l) in *; clearbody n
-  end; lia.
 
 Lemma frag_ok_new frag idx dc :
   frag_ok (with_fl (with_idx frag idx) (setf FRAGBLK true (setf DC dc no_flags))).
@@ -407,15 +579,108 @@ Proof.
   unfold frag_ok, bhas. cbn [b_fl with_fl]. rewrite !getf_setf_other by discriminate. auto.
 Qed.
 
-(* b: a processed tail end taken out of the pool (still counted in the backlog: h + 1) *)
-Lemma pcf_ok h (s0 : state) q b :
-  Inv (h + 1) s0 q ->
+(* inode-level effect of the two operations of process_completed_fragment *)
+Lemma sf_op_views i idx n :
+  i_fidx (i_add_sparse (i_set_block_size (i_make_extended i) idx 0) n) = i_fidx i /\
+  i_foff (i_add_sparse (i_set_block_size (i_make_extended i) idx 0) n) = i_foff i /\
+  i_blocks (i_add_sparse (i_set_block_size (i_make_extended i) idx 0) n) = upd_nth (N.to_nat idx) 0 (i_blocks i).
+Proof.
+  destruct (kv_make_extended i) as (A & B & C). cbn [i_add_sparse i_set_block_size i_fidx i_foff i_blocks].
+  rewrite A, B, C. auto.
+Qed.
+
+Lemma fv_g (t : itab) glog ino idx off :
+  (forall k, (i_fidx (t k), i_foff (t k)) = fref_of glog k) ->
+  forall k, (i_fidx (it_upd t ino (fun i => i_set_frag i idx off) k),
+             i_foff (it_upd t ino (fun i => i_set_frag i idx off) k)) = fref_of (glog ++ [(ino, idx, off)]) k.
+Proof.
+  intros H k. rewrite fref_of_snoc. cbn [fst snd]. unfold it_upd. destruct (k =? ino); [reflexivity|apply H].
+Qed.
+
+Lemma bv_g (t : itab) ino idx off k :
+  i_blocks (it_upd t ino (fun i => i_set_frag i idx off) k) = i_blocks (t k).
+Proof. unfold it_upd. destruct (k =? ino); reflexivity. Qed.
+
+(* the observation invariant across process_completed_fragment *)
+Lemma pcf_obs h (s0 : state) q x :
+  Inv (h + 1) s0 q -> In x Dall -> bhas ISFRAG x = true ->
+  ObsInv (pcf' s0 (pblock x)) (spec_frag' q (pblock x)).
+Proof.
+  intros [Hf Hh Hn Hfo Hq Hbl Hmb' Hobs] Hx Hfx.
+  assert (Hpre : exists n, map fst (s_writes s0) = firstn n (sp_out q)).
+  { eexists. eapply Q_writes. exact Hq. }
+  pose proof (written_fresh s0 q x Hobs Hpre Hx Hfx) as WF.
+  pose proof (written_ft_ok s0 q Hobs Hpre) as WT.
+  set (b := pblock x) in *.
+  assert (Eino : b_ino b = b_ino x) by apply pb_ino.
+  assert (Eidx : b_idx b = b_idx x) by apply pb_idx.
+  unfold pcf, spec_frag.
+  destruct s0 as [xp xq xs xd xf xc xb xh xt xi xw xl]. destruct q as [qf qh qn qo ql].
+  unfold Apool in *. prj. subst xf xh qn.
+  destruct Hobs as [Ofv Obv Oft Osrc Opool Oout Ofb Ofr]. unfold Apool in *. prj.
+  destruct (bhas SPARSE b).
+  { (* sparse tail end *)
+    prj. constructor; unfold Apool; prj; try assumption.
+    - intro k. rewrite <- Ofv. unfold it_upd. destruct (k =? b_ino b); [|reflexivity].
+      destruct (sf_op_views (xi k) (b_idx b) (len (b_data b))) as (A & B & _). rewrite A, B. reflexivity.
+    - intro k. rewrite Eino, Eidx, blocks_canon_sf by exact WF. rewrite <- Obv.
+      unfold it_upd, sf_blk. cbn [fst snd]. rewrite <- Eino, <- Eidx. destruct (k =? b_ino b); [|reflexivity].
+      destruct (sf_op_views (xi k) (b_idx b) (len (b_data b))) as (_ & _ & C). exact C. }
+  destruct (if bhas DD b then None else ht_search qh b) as [[idx off]|].
+  { (* duplicate of an earlier tail end *)
+    prj. constructor; unfold Apool; prj; try assumption.
+    - apply fv_g. exact Ofv.
+    - intro k. rewrite bv_g. apply Obv. }
+  destruct qf as [fb|].
+  - destruct (Ofr fb eq_refl) as (Kidx & Ksp).
+    pose proof (Hfo fb eq_refl) as (K1 & K2 & K3).
+    destruct (bs <? len (b_data fb) + len (b_data b)); prj.
+    + (* overflow, then a new fragment block *)
+      constructor; unfold Apool; prj.
+      * apply fv_g. exact Ofv.
+      * intro k. rewrite bv_g. apply Obv.
+      * rewrite ftbl_canon_grow by exact WT. rewrite <- Oft. reflexivity.
+      * exact Osrc.
+      * rewrite alpha_submit, filter_app. cbn [filter]. unfold notFB at 2. unfold bhas in *. cbn [b_fl with_seq].
+        rewrite K1. cbn [negb]. rewrite app_nil_r. exact Opool.
+      * apply Forall_app. split; [exact Oout|]. constructor; [|constructor]. left.
+        rewrite pb_flag by discriminate. exact K1.
+      * apply Forall_app. split.
+        -- eapply Forall_impl; [|exact Ofb]. intros; apply fb_idx_ok_grow; assumption.
+        -- constructor; [|constructor]. intros _. rewrite pb_idx. cbn [b_idx with_seq].
+           split; [lia|]. rewrite pb_sparse_fb by exact K1. exact Ksp.
+      * intros fb' E. inversion E; subst fb'. cbn [b_idx with_fl with_idx]. split; [lia|].
+        unfold bhas. cbn [b_fl with_fl]. first [reflexivity|rewrite !getf_setf_other, getf_no_flags by discriminate; reflexivity].
+    + (* merge *)
+      constructor; unfold Apool; prj; try assumption.
+      * apply fv_g. exact Ofv.
+      * intro k. rewrite bv_g. apply Obv.
+      * intros fb' E. inversion E; subst fb'. cbn [b_idx with_fl with_data]. split; [exact Kidx|].
+        unfold bhas in *. cbn [b_fl with_fl]. rewrite getf_setf_other by discriminate. exact Ksp.
+  - (* a new fragment block *)
+    prj. constructor; unfold Apool; prj; try assumption.
+    + apply fv_g. exact Ofv.
+    + intro k. rewrite bv_g. apply Obv.
+    + rewrite ftbl_canon_grow by exact WT. rewrite <- Oft. reflexivity.
+    + eapply Forall_impl; [|exact Ofb]. intros; apply fb_idx_ok_grow; assumption.
+    + intros fb' E. inversion E; subst fb'. cbn [b_idx with_fl with_idx]. split; [lia|].
+      unfold bhas. cbn [b_fl with_fl]. first [reflexivity|rewrite !getf_setf_other, getf_no_flags by discriminate; reflexivity].
+Qed.
+
+(* x: a tail end taken out of the pool (still counted in the backlog: h + 1) *)
+Lemma pcf_ok h (s0 : state) q x :
+  Inv (h + 1) s0 q -> In x Dall -> bhas ISFRAG x = true ->
+  let b := pblock x in
   let s' := pcf' s0 b in
   Inv h s' (spec_frag' q b) /\ s_cur s' = s_cur s0 /\ s_backlog s' <= s_backlog s0 /\
   filter notFB (Apool s') = filter notFB (Apool s0) /\
   (length (filter isFB (Apool s')) <= length (filter isFB (Apool s0)) + 1)%nat.
 Proof.
-  intros [Hf Hh Hn Hfo Hq Hbl Hmb']. cbv zeta. unfold pcf, spec_frag.
+  intros Hinv Hx Hfx. cbv zeta.
+  pose proof (pcf_obs h s0 q x Hinv Hx Hfx) as Hobs'.
+  destruct Hinv as [Hf Hh Hn Hfo Hq Hbl Hmb' Hobs]. clear Hobs.
+  set (b := pblock x) in *. clearbody b.
+  unfold pcf, spec_frag in *.
   destruct s0 as [xp xq xs xd xf xc xb xh xt xi xw xl]. unfold Apool in *. prj. subst xf xh.
   destruct (bhas SPARSE b).
   { (* sparse tail end *)
@@ -427,7 +692,7 @@ Proof.
     unfold Apool; prj.
     split; [|split; [reflexivity|split; [nlia|split; [reflexivity|nlia]]]].
     constructor; unfold Apool; prj; try assumption; try reflexivity; nlia. }
-  destruct q as [qf qh qn qo]. prj. subst qn.
+  destruct q as [qf qh qn qo ql]. prj. subst qn.
   destruct qf as [fb|].
   - pose proof (Hfo fb eq_refl) as (K1 & K2 & K3).
     destruct (bs <? len (b_data fb) + len (b_data b)) eqn:Eov; unfold Apool; prj.
@@ -475,6 +740,29 @@ Definition pull_result (s : state) (b : blk) (p' : P) : state :=
        then st_ioq (st_ioseq s (s_ioseq s + 1)) (store_io (s_ioq s) (with_seq b (s_ioseq s)))
        else st_ioq s (store_io (s_ioq s) b).
 
+(* a data block or tail end leaves the pool: it is now "consumed" by the specification *)
+Lemma Inv_pop_D h (s : state) q x rest p' :
+  Inv h s q -> Apool s = x :: rest -> alpha p' = rest -> bhas FRAGBLK x = false ->
+  Inv (h + 1) (st_pool s p') (mkSp (sp_frag q) (sp_ht q) (sp_nft q) (sp_out q) (log_src (sp_log q) x)) /\
+  In x Dall.
+Proof.
+  intros [Hf Hh Hn Hfo Hq Hbl Hmb' Hobs] HA Hp' EFB.
+  assert (N1 : notFB x = true) by (unfold notFB; rewrite EFB; reflexivity).
+  assert (HxD : In x Dall).
+  { destruct Hobs as [_ _ _ _ Opool _ _ _]. apply Opool. rewrite HA. cbn [filter]. rewrite N1. left; reflexivity. }
+  split; [|exact HxD].
+  rewrite HA in Hq, Hbl.
+  assert (Hq' := Q_drop_D hash compress BW bw_write bw0 _ _ _ _ _ _ _ Hq EFB).
+  destruct Hobs as [Ofv Obv Oft Osrc Opool Oout Ofb Ofr].
+  destruct s as [xp xq xs xd xf xc xb xh xt xi xw xl]. destruct q as [qf qh qn qo ql]. unfold Apool in *. prj.
+  constructor; unfold Apool; prj; rewrite ?Hp'; try assumption.
+  - rewrite len_cons in Hbl. nlia.
+  - constructor; unfold Apool; prj; rewrite ?Hp'; try assumption.
+    + apply incl_app; [exact Osrc|]. intros y [<-|[]]. exact HxD.
+    + rewrite HA in Opool. cbn [filter] in Opool. rewrite N1 in Opool. intros y Hy. apply Opool. right; exact Hy.
+    + eapply Forall_impl; [|exact Oout]. intros; apply src_ok_grow; assumption.
+Qed.
+
 Lemma pull_ok h (s : state) q x rest p' :
   Inv h s q -> Apool s = x :: rest -> alpha p' = rest ->
   let s2 := pull_result s (pblock x) p' in
@@ -489,7 +777,7 @@ Proof.
     |assert (N1 : notFB x = true) by (unfold notFB; rewrite EFB; reflexivity);
      assert (N2 : isFB x = false) by exact EFB].
   - (* a fragment block comes back *)
-    destruct Hinv as [Hf Hh Hn Hfo Hq Hbl Hmb']. rewrite HA in Hq, Hbl.
+    destruct Hinv as [Hf Hh Hn Hfo Hq Hbl Hmb' Hobs]. rewrite HA in Hq, Hbl.
     assert (Hfb : fb_ok hash compress (sp_out q) (s_iodeq s) x).
     { destruct Hq as [_ Hfbs _ _ _ _ _ _]. cbn [filter] in Hfbs. rewrite N2 in Hfbs.
       inversion Hfbs; assumption. }
@@ -499,22 +787,23 @@ Proof.
     rewrite EFB, F2. cbn [negb orb].
     exists []. cbn [spec_run fold_left app].
     assert (Hq' := Q_pull_FB hash compress BW bw_write bw0 _ _ _ _ _ _ _ Hq EFB).
+    assert (Hobs' : ObsInv (st_ioq (st_pool s p') (store_io (s_ioq (st_pool s p')) (pblock x))) q).
+    { eapply ObsInv_ext; [| | | |exact Hobs]; try (destruct s; reflexivity).
+      replace (Apool (st_ioq (st_pool s p') (store_io (s_ioq (st_pool s p')) (pblock x)))) with rest
+        by (destruct s; symmetry; exact Hp').
+      rewrite HA. cbn [filter]. rewrite N1. apply incl_refl. }
     destruct s as [xp xq xs xd xf xc xb xh xt xi xw xl]. unfold Apool in *. prj.
     cbn [filter]. rewrite N1, N2, Hp'.
     split; [|split; [reflexivity|split; [reflexivity|split; [lia|cbn [length]; lia]]]].
     constructor; unfold Apool; prj; rewrite ?Hp'; try assumption.
     rewrite store_io_len. rewrite len_cons in Hbl. nlia.
   - assert (EFB' : bhas FRAGBLK (pblock x) = false) by (rewrite pb_flag by discriminate; exact EFB).
+    destruct (Inv_pop_D h s q x rest p' Hinv HA Hp' EFB) as (Hpop & HxD).
     destruct (bhas ISFRAG (pblock x)) eqn:EIF.
     + (* a tail end *)
       exists [x]. cbn [spec_run fold_left]. unfold spec_step. rewrite EIF.
-      assert (Hpop : Inv (h + 1) (st_pool s p') q).
-      { destruct Hinv as [Hf Hh Hn Hfo Hq Hbl Hmb']. rewrite HA in Hq, Hbl.
-        assert (Hq' := Q_drop_D hash compress BW bw_write bw0 _ _ _ _ _ _ _ Hq EFB).
-        destruct s as [xp xq xs xd xf xc xb xh xt xi xw xl]. unfold Apool in *. prj.
-        constructor; unfold Apool; prj; rewrite ?Hp'; try assumption.
-        rewrite len_cons in Hbl. nlia. }
-      destruct (pcf_ok h _ q (pblock x) Hpop) as (A1 & A2 & A3 & A4 & A5). cbv zeta in *.
+      assert (Hfx : bhas ISFRAG x = true) by (rewrite <- EIF; symmetry; apply pb_flag; discriminate).
+      destruct (pcf_ok h _ _ x Hpop HxD Hfx) as (A1 & A2 & A3 & A4 & A5). cbv zeta in *.
       assert (G1 : Apool (st_pool s p') = rest) by (destruct s; exact Hp').
       assert (G2 : s_cur (st_pool s p') = s_cur s) by (destruct s; reflexivity).
       assert (G3 : s_backlog (st_pool s p') = s_backlog s) by (destruct s; reflexivity).
@@ -526,14 +815,23 @@ Proof.
     + (* a data block: next I/O sequence number, into the I/O queue *)
       rewrite EFB'. cbn [negb orb].
       exists [x]. cbn [spec_run fold_left]. unfold spec_step. rewrite EIF.
-      destruct Hinv as [Hf Hh Hn Hfo Hq Hbl Hmb']. rewrite HA in Hq, Hbl.
+      assert (Hfx : bhas ISFRAG x = false) by (rewrite <- EIF; symmetry; apply pb_flag; discriminate).
+      destruct Hpop as [Pf Ph Pn Pfo Pq Pbl Pmb Pobs].
+      destruct Hinv as [Hf Hh Hn Hfo Hq Hbl Hmb' Hobs]. rewrite HA in Hq, Hbl.
       assert (Hq' := Q_pull_D hash compress BW bw_write bw0 _ _ _ _ _ _ _ Hq EFB).
       assert (Hs : s_ioseq s = len (sp_out q)) by (destruct Hq; assumption).
-      destruct s as [xp xq xs xd xf xc xb xh xt xi xw xl]. unfold Apool in *. prj. subst xs.
+      destruct Pobs as [Ofv Obv Oft Osrc Opool Oout Ofb Ofr].
+      destruct s as [xp xq xs xd xf xc xb xh xt xi xw xl]. destruct q as [qf qh qn qo ql]. unfold Apool in *. prj. subst xs.
       cbn [filter]. rewrite N1, N2, Hp'. cbn [app].
       split; [|split; [reflexivity|split; [reflexivity|split; [lia|cbn [length]; lia]]]].
       constructor; unfold Apool; prj; rewrite ?Hp'; try assumption.
-      rewrite store_io_len. rewrite len_cons in Hbl. nlia.
+      * rewrite store_io_len. rewrite len_cons in Hbl. nlia.
+      * constructor; unfold Apool; prj; rewrite ?Hp'; try assumption.
+        -- rewrite Hp' in Opool. exact Opool.
+        -- apply Forall_app. split; [exact Oout|]. constructor; [|constructor]. right.
+           exists x. split; [apply in_or_app; right; left; reflexivity|]. split; [exact Hfx|reflexivity].
+        -- apply Forall_app. split; [exact Ofb|]. constructor; [|constructor].
+           intro HF. exfalso. unfold bhas in HF, EFB'. cbn [b_fl with_seq] in HF. congruence.
 Qed.
 
 (* ---------------- dequeue_block ---------------- *)
@@ -542,7 +840,7 @@ Lemma no_progress_contra (s1 : state) q old :
   (s_ioq s1 = [] \/ exists e r, s_ioq s1 = e :: r /\ b_seq e <> s_iodeq s1) ->
   1 <= old -> (s_backlog s1 <? old) = false -> nothing_in_flight s1 = false -> False.
 Proof.
-  intros [Hf Hh Hn Hfo Hq Hbl Hmb'] EA Hio Hold E1 E2.
+  intros [Hf Hh Hn Hfo Hq Hbl Hmb' Hobs] EA Hio Hold E1 E2.
   rewrite EA in *.
   assert (Hioq : s_ioq s1 = []).
   { destruct Hio as [|(e & r & He & Hne)]; [assumption|]. exfalso. apply Hne.
@@ -595,7 +893,7 @@ Qed.
 
 Lemma mu_le_backlog h (s : state) q : Inv h s q -> (mu s < dq_fuel s)%nat.
 Proof.
-  intros [_ _ _ _ _ Hbl _]. unfold mu, dq_fuel.
+  intros [_ _ _ _ _ Hbl _ _]. unfold mu, dq_fuel.
   pose proof (filter_FB_split (Apool s)). unfold len in Hbl. lia.
 Qed.
 
@@ -623,9 +921,10 @@ Qed.
 Lemma Inv_bump h (s : state) q :
   Inv h s q -> s_backlog s < mb -> Inv (h + 1) (st_backlog s (s_backlog s + 1)) q.
 Proof.
-  intros [Hf Hh Hn Hfo Hq Hbl Hmb'] Hlt.
+  intros [Hf Hh Hn Hfo Hq Hbl Hmb' Hobs] Hlt.
   destruct s as [xp xq xs xd xf xc xb xh xt xi xw xl]. unfold Apool in *. prj.
-  constructor; unfold Apool; prj; try assumption; nlia.
+  constructor; unfold Apool; prj; try assumption; try nlia.
+  obs_same Hobs.
 Qed.
 
 Lemma gnb_ok (s : state) q :
@@ -701,7 +1000,7 @@ Lemma drained (s : state) q :
   Inv 0 s q -> s_cur s = false -> (s_backlog s = 0 \/ nothing_in_flight s = true) ->
   Apool s = [] /\ s_ioq s = [] /\ s_backlog s = b2n (isSome (s_frag s)).
 Proof.
-  intros [Hf Hh Hn Hfo Hq Hbl Hmb'] Hc Hend.
+  intros [Hf Hh Hn Hfo Hq Hbl Hmb' Hobs] Hc Hend.
   assert (Hb : s_backlog s = b2n (isSome (s_frag s)) \/ (s_backlog s = 0)).
   { destruct Hend as [H|H]; [right; exact H|left].
     unfold nothing_in_flight in H. rewrite Hc in H. rewrite andb_false_r, orb_false_r in H.
@@ -714,28 +1013,38 @@ Proof.
 Qed.
 
 (* ---------------- the front-end calls ---------------- *)
-Lemma Inv_st_ino h (s : state) q v : Inv h s q -> Inv h (st_ino s v) q.
+Lemma Inv_st_ino h (s : state) q k f :
+  keeps_views f -> Inv h s q -> Inv h (st_ino s (it_upd (s_ino s) k f)) q.
 Proof.
-  intros [Hf Hh Hn Hfo Hq Hbl Hmb'].
+  intros Hkv [Hf Hh Hn Hfo Hq Hbl Hmb' Hobs].
   destruct s as [xp xq xs xd xf xc xb xh xt xi xw xl]. unfold Apool in *. prj.
-  constructor; unfold Apool; prj; assumption.
+  constructor; unfold Apool; prj; try assumption.
+  destruct Hobs as [Ofv Obv Oft Osrc Opool Oout Ofb Ofr]. unfold Apool in *. prj.
+  constructor; unfold Apool; prj; try assumption.
+  - intro k'. destruct (it_upd_kv xi k f k' Hkv) as (A & B & _). rewrite A, B. apply Ofv.
+  - intro k'. destruct (it_upd_kv xi k f k' Hkv) as (_ & _ & C). rewrite C. apply Obv.
 Qed.
 
 Lemma Inv_st_cur h (s : state) q v : Inv h s q -> Inv h (st_cur s v) q.
 Proof.
-  intros [Hf Hh Hn Hfo Hq Hbl Hmb'].
+  intros [Hf Hh Hn Hfo Hq Hbl Hmb' Hobs].
   destruct s as [xp xq xs xd xf xc xb xh xt xi xw xl]. unfold Apool in *. prj.
-  constructor; unfold Apool; prj; assumption.
+  constructor; unfold Apool; prj; try assumption.
+  obs_same Hobs.
 Qed.
 
 Lemma Inv_enqueue h (s : state) q b :
-  Inv (h + 1) s q -> bhas FRAGBLK b = false -> Inv h (enqueue' s b) q.
+  Inv (h + 1) s q -> bhas FRAGBLK b = false -> In b Dall -> Inv h (enqueue' s b) q.
 Proof.
-  intros [Hf Hh Hn Hfo Hq Hbl Hmb'] Hb.
+  intros [Hf Hh Hn Hfo Hq Hbl Hmb' Hobs] Hb HbD.
   assert (Hq' := Q_submit_D hash compress BW bw_write bw0 _ _ _ _ _ _ b Hq Hb).
   destruct s as [xp xq xs xd xf xc xb xh xt xi xw xl]. unfold Apool in *. prj.
   constructor; unfold Apool; prj; rewrite ?alpha_submit; try assumption.
-  rewrite len_app, len_cons, len_nil. nlia.
+  - rewrite len_app, len_cons, len_nil. nlia.
+  - destruct Hobs as [Ofv Obv Oft Osrc Opool Oout Ofb Ofr]. unfold Apool in *. prj.
+    constructor; unfold Apool; prj; rewrite ?alpha_submit; try assumption.
+    rewrite filter_app. cbn [filter]. unfold notFB at 2. rewrite Hb. cbn [negb].
+    apply incl_app; [exact Opool|]. intros y [<-|[]]. exact HbD.
 Qed.
 
 Lemma Apool_enqueue (s : state) b : Apool (enqueue' s b) = Apool s ++ [b].
@@ -826,7 +1135,7 @@ Proof.
   destruct (drained s1 _ C2 Hc1 C5) as (E1 & E2 & E3).
   rewrite E1 in C3. cbn [filter] in C3. rewrite app_nil_r in C3. rewrite C3.
   set (q1 := spec_run' q ds1) in *.
-  pose proof C2 as [Hf Hh Hn Hfo Hq Hbl Hmb'].
+  pose proof C2 as [Hf Hh Hn Hfo Hq Hbl Hmb' Hobs].
   destruct (s_frag s1) as [fb|] eqn:Efrag.
   - (* the last fragment block *)
     symmetry in Hf. destruct (Hfo fb Hf) as (K1 & K2 & K3).
@@ -868,7 +1177,7 @@ Proof.
     subst ds3. cbn [spec_run fold_left] in F2.
     assert (Hc3 : s_cur s3 = false) by congruence. rewrite Hc3 in F2. cbn [b2n] in F2.
     destruct (drained s3 _ F2 Hc3 F5) as (H1 & H2 & H3).
-    pose proof F2 as [Hf3 Hh3 Hn3 _ Hq3 _ _].
+    pose proof F2 as [Hf3 Hh3 Hn3 _ Hq3 _ _ Hobs3].
     rewrite H1, H2 in Hq3. apply Q_done in Hq3.
     exists s3. split; [reflexivity|]. split; [exact Hq3|].
     split; [rewrite H3, Hf3, Hq2; reflexivity|]. split; [exact Hc3|].
